@@ -522,3 +522,48 @@ Proof. vm_compute. reflexivity. Qed.
 '''),
     ],
 }
+
+SPEC["C04"] = {
+    "header": """C04 — serialising a parsed script yields an equivalent script (print/parse round trip).
+
+   Proved here (sieve/LexerFacts.v over sieve/Lexer.v and sieve/Printer.v): the part of C04 that is about
+   values — "string and list values survive unchanged whatever characters they contain".
+     (a) every string token the lexer delivers is an exact string token (its text alone is matched
+         completely by the string rule) — so is every value the parser stores from one;
+     (b) an exact string token is printed as it is by the (repaired) list-item printer and is lexed back as
+         the same single token, whatever follows it, also after the blank the printer writes;
+     (c) a printed list of exact string tokens is lexed back as '[' item (',' item)* ']', whatever the items
+         contain and whatever follows.
+   Not proved: the tree-level statement (tosieve of an accepted tree re-parses to an equal tree and printing
+   is a fixed point).  The printer model (sieve/Printer.v: definition-order traversal, tag + parameter,
+   test lists, indentation, the newline after a multi-line string) is tied to commands.py by comparing the
+   printed text of every accepted input, and the round trip itself (print, re-parse, compare trees as maps,
+   print again, compare text) is evaluated on the implementation over enumerations, generated scripts,
+   layouts, mutants and a quoting-edge value generator.""",
+    "imports": SIEVE_IMPORTS + "From SV Require Import LexerFacts.\n",
+    "theorems": [
+        ("C04_lexed_strings_exact", "LexerFacts.lexed_strings_exact", "every string token delivered by the lexer is an exact string token"),
+        ("C04_item_printed_unchanged", "LexerFacts.print_item_exact", "the list-item printer leaves a string token alone, whatever it contains"),
+        ("C04_string_lexes_back", "LexerFacts.next_token_exact", "a printed string token is lexed back as the same single token, whatever follows"),
+        ("C04_string_lexes_back_after_blank", "LexerFacts.next_token_exact_sp", "... also after the blank the printer writes before a value"),
+        ("C04_list_lexes_back", "LexerFacts.printed_list_lexes_back", "a printed list is lexed back as bracket, the same items separated by commas, bracket"),
+        ("raw", r'''(* non-vacuity: hostile contents are exact string tokens; and the model round trip on a concrete script *)
+Example C04_exact_examples :
+  Forall exact_string [bs """a\""b"""; bs """back\\slash"""; bs """[x], """; bs """two" ++ [10%N] ++ bs "lines"""; bs """"""].
+Proof. repeat constructor; vm_compute; reflexivity. Qed.
+
+Example C04_model_roundtrip :
+  let src := bs "require [""fileinto"", ""a\""b""]; if anyof (header :contains [""x,y"", ""]""] ""\\"", not exists ""z"") { fileinto ""[a]""; }" in
+  match parse gen_tables src with
+  | Accept r =>
+      let out := tosieve_all 10 r in
+      match parse gen_tables out with
+      | Accept r2 => tosieve_all 10 r2 = out
+      | _ => False
+      end
+  | _ => False
+  end.
+Proof. vm_compute. reflexivity. Qed.
+'''),
+    ],
+}
